@@ -10,6 +10,9 @@
     R m|m=v           `readonly m`                        L m|m=v         `typeset m`
     G m|m=v           `typeset -g m`                      U m… / UV m…    `unset m…` / `unset -v m…`
     T opts -- m|m=v…  `typeset opts m…` (opts among -g -r -x -X +x +r, in order)
+    FOR m -- v…       `for m in v…; do :; done`          AR m -- k…   `: $((m=k))`…
+    DEF m -- v        `: ${m=v}`                          RD m… -- w…  `read m… <<E` (one word per variable)
+    GO m              `OPTIND=1; getopts a m -a`          UF m         `unset -f m` (functions: no variable changes)
     TP n=v… opts -- m|m=v…  `n=v… typeset opts m…` (wave 3: temporary assignments before the regular
                       built-in; `get_or_new(Local|Global)` carries a temporary variable of the
                       operand's name down into the regular context, so its value outlives the command)
@@ -17,23 +20,13 @@
     RET               `return 3` (inside a function body)
     SP a…             `set -- a…`
 
-  A refused assignment / unset (read-only) ends the script (the non-interactive shell exits), except
-  inside `typeset`, which reports the error and goes on.  Import-free, executable, total (fuel).
+  A refused assignment (prefix, `for`, `$((m=k))`, `${m=v}`) ends the non-interactive shell with exit
+  status 2 (line `x2`); `export`/`readonly`/`unset` process every operand, then fail with exit status 1,
+  which ends the shell too (`x1`); `typeset`, `read`, `getopts` go on and report their status (`r0`/`r1`/`r2`).
+  After an abort the last line shows the variables the shell is left with.  Import-free, executable, total (fuel).
 -/
-import YashModel.Variable.Exec
-import YashModel.Variable.Spec
+import YashModel.Variable.BuiltinModel
 namespace YashModel.Variable
-
-structure Iface (σ : Type) where
-  step : σ → Op → σ × Res
-  get : σ → Name → Option Variable
-  getIn : σ → Name → Scope → Option Variable
-  env : σ → List Name → List (Name × String)
-  params : σ → List String
-
-def ifaceM : Iface VariableSet :=
-  ⟨VariableSet.step, VariableSet.get, VariableSet.getScoped, VariableSet.env, VariableSet.positionalParams⟩
-def ifaceS : Iface SSet := ⟨SSet.step, lookup, SSet.getScoped, SSet.env, SSet.positionalParams⟩
 
 structure Stmt where
   kind : String
@@ -49,12 +42,6 @@ def runOps {σ} (I : Iface σ) (s : σ) : List Op → σ × Bool
     match I.step s op with
     | (s', .readOnly _) => (s', true)
     | (s', _) => runOps I s' t
-
-def splitAssign (t : String) : Name × Option String :=
-  match t.splitOn "=" with
-  | [n] => (n, none)
-  | n :: rest => (n, some ("=".intercalate rest))
-  | [] => (t, none)
 
 /-- value token: `@a.b` is the array `(a b)`, `@` the empty array, anything else a scalar -/
 def parseVal (v : String) : Value :=
@@ -173,10 +160,30 @@ def operandOf (t : String) : Name × Option Value :=
 /-- a token `n=v` (as opposed to an option) in the prefix of a `TP` statement -/
 def isAssignToken (t : String) : Bool := t.toList.any (· == '=')
 
+/-- the option occurrence an option string of the `typeset` family stands for -/
+def optOccOf (o : String) : Option OptOcc :=
+  if o = "-g" then some ⟨'g', true⟩
+  else if o = "-r" then some ⟨'r', true⟩
+  else if o = "+r" then some ⟨'r', false⟩
+  else if o = "-x" then some ⟨'x', true⟩
+  else if o = "+x" then some ⟨'x', false⟩
+  else if o = "-X" then some ⟨'X', true⟩
+  else none
+
+/-- one variable written by `read`: `get_or_create_variable(name, Global)`, `assign`; a refusal is an
+    error, the built-in goes on with the next variable -/
+def readAssign {σ} (I : Iface σ) (s : σ) (t : Name × Value) : σ × Bool :=
+  match I.step s (.assign t.1 .global t.2 none) with
+  | (s1, .readOnly _) => (s1, true)
+  | (s1, _) => (s1, false)
+
 /-- what a statement does, independently of the state: the operations come from `Exec.lean` -/
 inductive Action where
   | special (as : List (Name × AVal)) (ops : List Op)
-  | typeset (temps : List (Name × AVal)) (sc : Scope) (opts operands : List String)
+  | decl (as : List (Name × AVal)) (attr : VAttr) (operands : List String)
+  | unsetv (names : List Name)
+  | write (kind : String) (targets : List (Name × Value))
+  | typeset (temps : List (Name × AVal)) (occs : List OptOcc) (operands : List String)
   | print (b : String) (opts names : List String)
   | regular (kind : String) (temps : List (Name × AVal))
   | call (f : String) (temps : List (Name × AVal)) (args : List String)
@@ -186,18 +193,24 @@ inductive Action where
 def stmtAction (st : Stmt) : Action :=
   match st.kind with
   | "A" | "S" => .special (assigns st.pre) []
-  | "E" => .special (assigns st.pre) (st.post.flatMap fun t => exportOps (operandOf t).1 (operandOf t).2)
-  | "EX" => .special [] (st.pre.flatMap fun t => exportOps (operandOf t).1 (operandOf t).2)
-  | "R" => .special [] (st.pre.flatMap fun t => readonlyOps (operandOf t).1 (operandOf t).2 1)
-  | "U" | "UV" => .special [] (unsetOps st.pre)
+  | "E" => .decl (assigns st.pre) .export st.post
+  | "EX" => .decl [] .export st.pre
+  | "R" => .decl [] .readOnly st.pre
+  | "U" | "UV" => .unsetv st.pre
+  | "FOR" => .write "for" (st.post.map fun v => (st.pre.headD "x", Value.scalar v))
+  | "AR" => .write "arith" (st.post.map fun v => (st.pre.headD "x", Value.scalar v))
+  | "DEF" => .write "def" ((st.post.take 1).map fun v => (st.pre.headD "x", Value.scalar v))
+  | "RD" => .write "read" (st.pre.zip (st.post.map Value.scalar))
+  | "GO" => .write "read" [(st.pre.headD "x", Value.scalar "a")]
+  | "UF" => .special [] []
   | "SP" => .special [] [.setParams st.pre]
   | "RET" => .ret
-  | "L" => .typeset [] .loc [] st.pre
-  | "G" => .typeset [] .global ["-g"] st.pre
-  | "T" => .typeset [] (if st.pre.contains "-g" then .global else .loc) st.pre st.post
+  | "L" => .typeset [] [] st.pre
+  | "G" => .typeset [] [⟨'g', true⟩] st.pre
+  | "T" => .typeset [] (st.pre.filterMap optOccOf) st.post
   | "TP" =>
-    let opts := st.pre.filter (fun t => !isAssignToken t)
-    .typeset (assigns (st.pre.filter isAssignToken)) (if opts.contains "-g" then .global else .loc) opts st.post
+    .typeset (assigns (st.pre.filter isAssignToken))
+      ((st.pre.filter (fun t => !isAssignToken t)).filterMap optOccOf) st.post
   | "D" => match st.pre with
     | [] => .bad
     | b :: opts => .print b opts st.post
@@ -218,33 +231,62 @@ def execStmts {σ} (I : Iface σ) (funs : List (String × List Stmt)) :
       execStmts I funs fuel s' rest (vline I (expOf I s') s' :: out)
     match stmtAction st with
     | .special as ops =>
-      -- assignments at `Global` scope without export, in the current contexts, then the built-in
+      -- assignments at `Global` scope without export, in the current contexts, then the built-in;
+      -- a refused assignment ends the shell with exit status 2 (`x2`)
       match runAssigns I .global false s as with
-      | (s0, true) => (s0, out, Status.abort)
+      | (s0, true) => (s0, "x2" :: out, Status.abort)
       | (s0, false) =>
         match runOps I s0 ops with
-        | (s', true) => (s', out, Status.abort)
+        | (s', true) => (s', "x2" :: out, Status.abort)
+        | (s', false) => fin s' out
+    | .decl as attr operands =>
+      -- `export` / `readonly` (special built-ins): every operand is processed
+      -- (`SetVariables::execute` goes on after a refusal); with an error the built-in fails with exit
+      -- status 1, which ends the non-interactive shell (`x1`)
+      match runAssigns I .global false s as with
+      | (s0, true) => (s0, "x2" :: out, Status.abort)
+      | (s0, false) =>
+        match declMain I attr [] operands s0 with
+        | (s', 0) => fin s' out
+        | (s', _ + 1) => (s', "x1" :: out, Status.abort)
+    | .unsetv names =>
+      -- `unset` (special built-in): every operand is tried (`unset_variables`)
+      match unsetVariables I names s with
+      | (s', 0) => fin s' out
+      | (s', _ + 1) => (s', "x1" :: out, Status.abort)
+    | .write kind targets =>
+      -- other paths of the language that assign, all at `Global` scope: `read` goes on after a
+      -- refusal and reports exit status 2 (`r2`); a `for` loop, `$((m=v))` and `${m=v}` (only when `m`
+      -- has no value) end the shell with exit status 2
+      if kind = "read" then
+        match foldErrors (readAssign I) targets (s, 0) with
+        | (s', e) => fin s' ((if e = 0 then "r0" else "r2") :: out)
+      else
+        let targets := if kind = "def" then targets.filter (fun t => ((I.get s t.1).bind (·.value)).isNone)
+          else targets
+        match runOps I s (targets.map fun t => Op.assign t.1 .global t.2 none) with
+        | (s', true) => (s', "x2" :: out, Status.abort)
         | (s', false) => fin s' out
     | .ret => (s, out, .ret)
     | .bad => (s, "bad" :: out, .abort)
-    | .typeset temps sc opts operands =>
+    | .typeset temps occs operands =>
       -- `typeset` is a regular built-in (volatile context around it, holding the temporary
-      -- assignments, if any) and survives the errors of its operands
+      -- assignments, if any) and survives the errors of its operands: exit status 1 (`r1`) with an error
       match runAssigns I .volatile true (I.step s (.push .volatile)).1 temps with
-      | (s1, true) => (s1, out, .abort)
+      | (s1, true) => (s1, "x2" :: out, .abort)
       | (s1, false) =>
-        let s2 := operands.foldl (typesetField I sc opts) s1
-        fin (I.step s2 .pop).1 out
+        let r := typesetMain I occs operands s1
+        fin (I.step r.1 .pop).1 ((if r.2 = 0 then "r0" else "r1") :: out)
     | .print b opts names =>
       let s1 := if b = "t" then (I.step s (.push .volatile)).1 else s
       -- `export -p m` / `readonly -p m` of a name that is not a variable: error in a special
       -- built-in, the shell exits
-      if b != "t" && names.any (fun n => (I.getIn s n .global).isNone) then (s, out, .abort)
+      if b != "t" && names.any (fun n => (I.getIn s n .global).isNone) then (s, "x1" :: out, .abort)
       else fin s ((printLines I s1 b opts names).reverse ++ out)
     | .regular kind temps =>
       let exp := expOf I s
       match runAssigns I .volatile true (I.step s (.push .volatile)).1 temps with
-      | (s1, true) => (s1, out, .abort)
+      | (s1, true) => (s1, "x2" :: out, .abort)
       | (s1, false) =>
         let out :=
           if kind = "P" then vline I exp s1 :: out
@@ -257,11 +299,21 @@ def execStmts {σ} (I : Iface σ) (funs : List (String × List Stmt)) :
       | none => (s, "bad" :: out, .abort)
       | some body =>
         match runAssigns I .volatile true (I.step s (.push .volatile)).1 temps with
-        | (s1, true) => (s1, out, .abort)
+        | (s1, true) => (s1, "x2" :: out, .abort)
         | (s1, false) =>
           let s2 := (I.step s1 (.push (.regular args))).1
           match execStmts I funs fuel s2 body out with
           | (s3, out, .abort) => (s3, out, .abort)
           | (s3, out, _) => fin (I.step (I.step s3 .pop).1 .pop).1 out
+
+/-- the shell exits from wherever it is: every context guard is dropped (popping the base context is
+    a no-op in both state implementations; the script language nests at most 5 contexts) -/
+def unwindAll {σ} (I : Iface σ) (s : σ) : σ :=
+  (List.replicate 8 Op.pop).foldl (fun s op => (I.step s op).1) s
+
+/-- the last line of a script case: `@END`, or `abort` followed by the variables the shell is left
+    with when it exits (read from the real `Env` after the shell has ended) -/
+def endLine {σ} (I : Iface σ) (s : σ) (st : Status) : String :=
+  if st = .ok then "@END" else "abort " ++ showState I (unwindAll I s)
 
 end YashModel.Variable
